@@ -10,7 +10,7 @@ CONSTANTS
   TcpOnlySet <- MCQ_TcpOnly
   TmoSet = {40, 500}
   Est = 30
-  Outs = {"Data", "NX", "SF", "REF", "FE", "Err"}
+  Outs = {"Data", "SF", "Err"}
   TcpOuts = {"Data"}
   Lats = {1, 50, 9999}
   FreshEvery = FALSE
